@@ -45,6 +45,14 @@ ConvBase(B, c) ==
                              [] c = "B1" -> "i:1" [] c = "B0" -> "i:0" [] OTHER -> "none")
     [] B = "F64OrNone" -> (CASE c = "I7" -> "f:7.0" [] c = "F2" -> "f:2.0" [] c = "F1.5" -> "f:1.5" [] c = "S12" -> "f:12.0"
                              [] c = "S1.5" -> "f:1.5" [] c = "B1" -> "f:1.0" [] c = "B0" -> "f:0.0" [] OTHER -> "none")
+    \* deserialize_as_i64_or_string / deserialize_as_f64_or_string: the value when the cell is numeric,
+    \* otherwise Err(what the cell displays) -- "es:<text>", never a failure of the record
+    [] B = "I64OrString" -> (CASE c = "I7" -> "i:7" [] c = "Ibig" -> "i:9007199254740993" [] c = "F2" -> "i:2" [] c = "F1.5" -> "i:1" [] c = "S12" -> "i:12"
+                             [] c = "B1" -> "i:1" [] c = "B0" -> "i:0"
+                             [] c = "E" -> "es:" [] c = "Sx" -> "es:x" [] c = "S1.5" -> "es:1.5" [] c = "STRUE" -> "es:TRUE" [] OTHER -> "ERR")
+    [] B = "F64OrString" -> (CASE c = "I7" -> "f:7.0" [] c = "F2" -> "f:2.0" [] c = "F1.5" -> "f:1.5" [] c = "S12" -> "f:12.0"
+                             [] c = "S1.5" -> "f:1.5" [] c = "B1" -> "f:1.0" [] c = "B0" -> "f:0.0"
+                             [] c = "E" -> "es:" [] c = "Sx" -> "es:x" [] c = "STRUE" -> "es:TRUE" [] OTHER -> "ERR")
     [] B = "Data"   -> (CASE c = "E" -> "d:E" [] c = "I7" -> "d:I7" [] c = "F1.5" -> "d:F1.5"
                           [] c = "Sx" -> "d:Sx" [] c = "B1" -> "d:B1" [] c = "S0" -> "d:S0" [] OTHER -> "ERR")
 Conv(T, c) == IF IsOpt(T) /\ c = "E" THEN "none" ELSE ConvBase(Base(T), c)
@@ -62,6 +70,8 @@ OkCodes(T) ==
               [] B = "Data" -> {"E", "S0", "I7", "F1.5", "Sx", "B1"}
               [] B = "I64OrNone" -> {"E", "I7", "Ibig", "F2", "F1.5", "S12", "S1.5", "Sx", "B1", "B0", "STRUE"}
               [] B = "F64OrNone" -> {"E", "I7", "F2", "F1.5", "S12", "S1.5", "Sx", "B1", "B0", "STRUE"}
+              [] B = "I64OrString" -> {"E", "I7", "Ibig", "F2", "F1.5", "S12", "S1.5", "Sx", "B1", "B0", "STRUE"}
+              [] B = "F64OrString" -> {"E", "I7", "F2", "F1.5", "S12", "S1.5", "Sx", "B1", "B0", "STRUE"}
   IN ok \cup (IF IsOpt(T) THEN {"E"} ELSE {})
 
 --------------------------------------------------------------------------
